@@ -55,10 +55,14 @@ def coeffs(K, M, rot=0):
     return COEF[rows][:, :M]
 
 
-GEOMS = ["coincident", "generic", "z", "far12x", "tail28", "x", "y", "far", "far20z", "far33y", "tail22", "tail25", "tail31", "tail34"]
+GEOMS = ["coincident", "generic", "z", "far12x", "tail28", "x", "y", "far", "far20z", "far33y", "tail22", "tail25", "tail31", "tail34",
+         "closeT", "near05", "nearfar"]
+# nearfar: the two centres 3e-4 bohr apart (a ghost / displaced-geometry centre) AND the pair ~60 bohr from the
+# coordinate origin (the caller adds FAR_OFFSET to both): distinct centres that a relative-tolerance test confuses
+FAR_OFFSET = (40.0, -35.0, 30.0)
 
 
-def displacement(geom, tag="d", mu=None):
+def displacement(geom, tag="d", mu=None, mu_max=None):
     """Displacement of centre B from centre A for a geometry class.
     tailNN: distance chosen so that mu R^2 = NN for the most diffuse primitive pair (mu = ab/(a+b)): the Gaussian
     product factor is e^-NN there, i.e. on the ladder 3e-10 ... 2e-15 where truncation / screening thresholds live,
@@ -72,6 +76,13 @@ def displacement(geom, tag="d", mu=None):
         return tuple(R * v / n for v in u)
     if geom == "coincident":
         return (0.0, 0.0, 0.0)
+    if geom in ("closeT", "near05", "nearfar"):
+        # nearly coincident centres (same basis at a slightly displaced geometry): closeT puts the TIGHTEST primitive
+        # pair at mu R^2 = 1.3 so that tight-tight products still carry weight; near05 is 0.05 bohr
+        u = (0.61, -0.52, 0.6)
+        n = sum(v * v for v in u) ** 0.5
+        R = {"closeT": (1.3 / (mu_max or 1.0)) ** 0.5, "near05": 0.05, "nearfar": 3e-4}[geom]
+        return tuple(R * v / n for v in u)
     if geom == "x":
         return (d, 0.0, 0.0)
     if geom == "y":
